@@ -629,6 +629,26 @@ _FRESH_ARRAYS = ('np.zeros', 'np.ones', 'np.empty', 'np.full', 'np.array', 'np.e
                  'numpy.empty', 'numpy.full', 'numpy.array', 'np.zeros_like', 'np.ones_like', 'np.empty_like')
 
 
+def _accumulate_as_augassign(node):
+    """`T = T + E` / `T = E + T`(numbers) with the very same target text on both sides is the accumulation `T += E`
+    (for the rules that look for what is added to a result per image / per element; the value is the same)"""
+    def rec(x):
+        for fld, val in ast.iter_fields(x):
+            if isinstance(val, list):
+                for i_, y in enumerate(val):
+                    if isinstance(y, ast.Assign) and len(y.targets) == 1 and isinstance(y.value, ast.BinOp) and \
+                       isinstance(y.value.op, (ast.Add, ast.Sub)) and isinstance(y.targets[0], (ast.Name, ast.Subscript, ast.Attribute)) \
+                       and norm(y.value.left) == norm(y.targets[0]):
+                        new = ast.AugAssign(target=y.targets[0], op=y.value.op, value=y.value.right)
+                        ast.copy_location(new, y)
+                        val[i_] = new
+                    elif isinstance(y, ast.AST):
+                        rec(y)
+            elif isinstance(val, ast.AST):
+                rec(val)
+    rec(node)
+
+
 def _sort_as_sorted(node):
     """`X.sort(key=K)` on a local list is `X = sorted(X, key=K)` for everything that reads X afterwards (the
     dataflow rules follow names, not in-place changes)"""
@@ -1119,6 +1139,7 @@ def flatten(ctx, func, depth=3):
     node.body = doc + fl.block(body, [func.qual])
     _scalarise_tables(node)
     _sort_as_sorted(node)
+    _accumulate_as_augassign(node)
     _chain_attr_alias(node)
     _inplace_attr_alias(node)
     _scalarise_objects(ctx, node, fl.counter)
